@@ -1,2 +1,71 @@
+"""K suites of C17: the model's acceptance predicates vs what the real constructors do."""
+import warnings
+
+import numpy as np
+
+from harness.framework import cbool, cnatlist, cnatlist2
+
+
 def run_model(ctx):
-    pass
+    import cubed
+    import cubed.array_api as xp
+
+    r = ctx.rng
+    spec = cubed.Spec(allowed_mem="200MB")
+    cases = []
+
+    def outcome(f):
+        """'accept' (built and computed), 'reject' (explicit error at build) - anything else is reported by the oracle"""
+        try:
+            with warnings.catch_warnings():
+                warnings.simplefilter("ignore")
+                y = f()
+        except (ValueError, TypeError, NotImplementedError, IndexError):
+            return "reject", None
+        except Exception as e:
+            return "incidental:" + type(e).__name__, None
+        return "accept", y
+
+    for _ in range(ctx.n(120, 2000)):
+        kind = r.choice(["stack", "permute", "tsqr", "scan"])
+        ctx.evaluations += 1
+        if kind == "stack":
+            nd = r.choice([1, 2])
+            s0 = tuple(r.randint(1, 5) for _ in range(nd))
+            shapes = [s0] + [s0 if r.random() < 0.6 else tuple(r.randint(1, 5) for _ in range(nd)) for _ in range(r.randint(1, 2))]
+            arrs = [xp.asarray(np.zeros(s), chunks=tuple(r.randint(1, n) for n in s), spec=spec) for s in shapes]
+            o, y = outcome(lambda: xp.stack(arrs, axis=r.randint(0, nd)))
+            desc = {"stack": shapes}
+            cases.append({"expr": f"Bool.eqb (stack_accepts {cnatlist2(shapes)}) {cbool(o == 'accept')}", "desc": desc, "show": f"stack_accepts {cnatlist2(shapes)}"})
+        elif kind == "permute":
+            nd = r.choice([1, 2, 3])
+            axes = [r.randrange(nd) for _ in range(nd)] if r.random() < 0.5 else r.sample(range(nd), nd)
+            a = xp.asarray(np.zeros((2,) * nd), chunks=(r.choice([1, 2]),) * nd, spec=spec)
+            o, y = outcome(lambda: xp.permute_dims(a, tuple(axes)))
+            desc = {"permute": axes}
+            cases.append({"expr": f"Bool.eqb (is_permutation {cnatlist(axes)}) {cbool(o == 'accept')}", "desc": desc, "show": f"is_permutation {cnatlist(axes)}"})
+        elif kind == "tsqr":
+            m = r.randint(2, 12)
+            n = r.randint(1, min(m, 4))
+            rc = r.randint(1, m)
+            a = xp.asarray(np.random.RandomState(0).rand(m, n), chunks=(rc, n), spec=spec)
+            o, y = outcome(lambda: xp.linalg.qr(a))
+            rows = [int(c) for c in a.chunks[0]]
+            desc = {"qr": (m, n), "row_chunks": rows}
+            cases.append({"expr": f"Bool.eqb (tsqr_accepts {cnatlist(rows)} {n}) {cbool(o == 'accept')}", "desc": desc, "show": f"tsqr_accepts {cnatlist(rows)} {n}"})
+        else:
+            nb = r.choice([1, 2, 3, 5, 6, 7, 10, 11, 15, 25, 26, 30, 50])
+            a = xp.asarray(np.zeros((nb,)), chunks=(1,), spec=spec)
+            try:
+                with warnings.catch_warnings():
+                    warnings.simplefilter("ignore")
+                    xp.cumulative_sum(a, axis=0)
+                o = "accept"
+            except AssertionError:
+                o = "assertion"
+            desc = {"scan_blocks": nb}
+            cases.append({"expr": f"Bool.eqb (scan_accepts {nb}) {cbool(o == 'accept')}", "desc": desc, "show": f"scan_accepts {nb}"})
+        if o.startswith("incidental"):
+            ctx.fail(f"build:{o.split(':')[1]}:{kind}", f"{kind} raised {o}", desc)
+        ctx.nt(desc)
+    ctx.corr("acceptance_predicates", "Model.Util Model.Keys Model.OpsKF", cases, chunk=300)
